@@ -10,6 +10,9 @@
 //!        then `finalize`; trace has one letter per push:
 //!        `.` Ok, I IllegalChar, T TrailingInput, S ShortInput, B ShortBuf,
 //!        P panic (pushing stops, final is `Panic`)
+//!   deccap64|32|16 <cap> <text>, pushcap64|32|16 <cap> <text>
+//!        the same through a builder that holds at most <cap> octets
+//!        (octseq::Array<cap>): ShortBuf paths
 //!   conv64|conv32|conv16 <text> <text>..=> Ok <octets> | Err <Illegal|Trailing|Short>
 //!        the scanner's SymbolConverter fed with the chars of every chunk
 //!        followed by EndOfToken, then process_tail
@@ -159,6 +162,103 @@ fn imp_conv(c: Codec, chunks: &[Vec<char>]) -> Result<Result<Vec<u8>, &'static s
         B32 => conv_loop(base32::SymbolConverter::new(), &chunks),
         B16 => conv_loop(base16::SymbolConverter::new(), &chunks),
     })
+}
+
+// ------------------------------------------- bounded builders (ShortBuf)
+
+use octseq::array::Array;
+use octseq::builder::{EmptyBuilder, FreezeBuilder, FromBuilder, OctetsBuilder};
+
+pub const MAX_CAP: usize = 12;
+
+fn push_all_b<B>(c: Codec, s: &[char]) -> PushRun
+where B: EmptyBuilder + OctetsBuilder + FreezeBuilder, B::Octets: AsRef<[u8]> {
+    macro_rules! drive { ($d:expr) => {{
+        let mut d = $d;
+        let mut trace = vec![];
+        for (i, ch) in s.iter().enumerate() {
+            match catch_mut(|| d.push(*ch)) {
+                Ok(Ok(())) => trace.push(None),
+                Ok(Err(e)) => trace.push(Some(e)),
+                Err(_) => return PushRun { trace, panicked_at: Some(i), fin: None },
+            }
+        }
+        let fin = catch_mut(move || d.finalize().map(|o| o.as_ref().to_vec())).ok();
+        PushRun { trace, panicked_at: None, fin }
+    }}; }
+    match c {
+        B64 => drive!(base64::Decoder::<B>::new()),
+        B32 => drive!(base32::Decoder::<B>::new_hex()),
+        B16 => drive!(base16::Decoder::<B>::new()),
+    }
+}
+
+fn decode_b<O>(c: Codec, s: &[char]) -> Result<Result<Vec<u8>, DecodeError>, String>
+where O: FromBuilder + AsRef<[u8]>, <O as FromBuilder>::Builder: OctetsBuilder + EmptyBuilder {
+    let t = text_of(s);
+    catch(move || match c {
+        B64 => base64::decode::<O>(&t).map(|o| o.as_ref().to_vec()),
+        B32 => base32::decode_hex::<O>(&t).map(|o| o.as_ref().to_vec()),
+        B16 => base16::decode::<O>(&t).map(|o| o.as_ref().to_vec()),
+    })
+}
+
+macro_rules! by_cap {
+    ($cap:expr, $f:ident, $($a:expr),*) => { match $cap {
+        0 => $f::<Array<0>>($($a),*), 1 => $f::<Array<1>>($($a),*), 2 => $f::<Array<2>>($($a),*),
+        3 => $f::<Array<3>>($($a),*), 4 => $f::<Array<4>>($($a),*), 5 => $f::<Array<5>>($($a),*),
+        6 => $f::<Array<6>>($($a),*), 7 => $f::<Array<7>>($($a),*), 8 => $f::<Array<8>>($($a),*),
+        9 => $f::<Array<9>>($($a),*), 10 => $f::<Array<10>>($($a),*), 11 => $f::<Array<11>>($($a),*),
+        _ => $f::<Array<12>>($($a),*),
+    } };
+}
+
+fn imp_push_all_cap(c: Codec, cap: usize, s: &[char]) -> PushRun { by_cap!(cap, push_all_b, c, s) }
+fn imp_decode_cap(c: Codec, cap: usize, s: &[char]) -> Result<Result<Vec<u8>, DecodeError>, String> { by_cap!(cap, decode_b, c, s) }
+
+/// decode / push API into a builder holding at most `cap` octets
+fn t2_cap(out: &mut Out, c: Codec, cap: usize, s: &[char]) {
+    let cap = cap.min(MAX_CAP);
+    let p = c.pfx();
+    let want = ref_decode(c, s);
+    // decode
+    let case = format!("deccap{} {} {}", c.tag(), cap, cps(s));
+    out.begin(&case);
+    let r = imp_decode_cap(c, cap, s);
+    let obs = match &r { Err(_) => "Panic".to_string(), Ok(Ok(v)) => format!("Ok {}", hex(v)), Ok(Err(e)) => format!("Err {}", kind(e)) };
+    out.case(&case, &obs, !s.is_empty(), &format!("deccap{}", c.tag()));
+    match &r {
+        Err(e) => chk(out, false, &format!("{}_cap_decode_panics", p), &case, e),
+        Ok(r) => {
+            let ok = match (&want, r) {
+                (Some(w), Ok(v)) => w == v && w.len() <= cap,
+                (Some(w), Err(e)) => w.len() > cap && *e == DecodeError::ShortBuf,
+                (None, Err(_)) => true,
+                (None, Ok(_)) => false,
+            };
+            chk(out, ok, &format!("{}_cap_accepts_iff_fits", p), &case, &format!("impl {:?} reference {:?} cap {}", r, want, cap));
+        }
+    }
+    // per-push API
+    let case = format!("pushcap{} {} {}", c.tag(), cap, cps(s));
+    out.begin(&case);
+    let run = imp_push_all_cap(c, cap, s);
+    out.case(&case, &obs_push(&run), !s.is_empty(), &format!("pushcap{}", c.tag()));
+    if let Some(i) = run.panicked_at {
+        chk(out, false, &format!("{}_cap_push_panics", p), &case, &format!("push #{} panicked: {}", i, obs_push(&run)));
+        return;
+    }
+    chk(out, true, &format!("{}_cap_push_panics", p), &case, "");
+    let fin = match &run.fin { None => { chk(out, false, &format!("{}_cap_finalize_panics", p), &case, ""); return; } Some(f) => f.clone() };
+    match run.trace.iter().position(|x| x.is_some()) {
+        Some(i) => {
+            let later_ok = run.trace[i + 1..].iter().any(|x| x.is_none());
+            chk(out, !later_ok && fin.is_err(), &format!("{}_cap_error_not_sticky", p), &case, &obs_push(&run));
+        }
+        None => {
+            chk(out, matches!(&r, Ok(x) if *x == fin), &format!("{}_cap_push_differs_from_decode", p), &case, &format!("{:?} vs {:?}", r, fin));
+        }
+    }
 }
 
 // ------------------------------------- independent RFC 4648 reference (bits)
@@ -505,6 +605,9 @@ fn main() {
         }
     }
     if want!() { t2_conv(&mut out, B64, &[]); }
+    for (c, t) in [(B64, "Zm9vYmFy"), (B64, "Zm9vYg=="), (B64, "Zm9vYmE="), (B64, "Zm9vYg==Zg"), (B64, "Zm9v!"), (B32, "CPNMUOJ1E8"), (B32, "CPNMUOJ1"), (B32, "CPNMU!"), (B16, "F00F"), (B16, "F00F0"), (B16, "F0!F")] {
+        for cap in 0..=7 { if want!() { t2_cap(&mut out, c, cap, &chars(t)); } }
+    }
 
     // ---- all octet strings of length <= 2
     for c in codecs {
@@ -574,6 +677,32 @@ fn main() {
             if want!() { t2_push(&mut out, c, &s2); }
             if cp % 3 == 0 { if want!() { t2_conv(&mut out, c, &[base.clone(), vec![ch]]); } }
         }
+    }
+    // ---- bounded builders: capacities around the decoded length, all group remainders
+    for c in codecs {
+        let al = alphabet(c);
+        let nb = neighbours(c);
+        for n in 0..=MAX_CAP + 1 {
+            for rep in 0..3 {
+                let b = r.bytes(n);
+                let mut t: Vec<char> = ref_encode(c, &b).chars().collect();
+                if rep == 2 && !t.is_empty() { let pos = r.below(t.len() as u64) as usize; t[pos] = rand_char(&mut r, c, &al, &nb); }
+                for cap in n.saturating_sub(3)..=(n + 1).min(MAX_CAP) {
+                    if want!() { t2_cap(&mut out, c, cap, &t); }
+                }
+            }
+        }
+        // texts followed by more input after the builder is full
+        for _ in 0..(if a.thorough { 4000 } else { 400 } * a.scale) {
+            let s = rand_text(&mut r, c, &al, &nb);
+            let cap = r.below(6) as usize;
+            if want!() { t2_cap(&mut out, c, cap, &s); }
+        }
+    }
+    for (c, sub) in &subs {
+        let mut all: Vec<Vec<char>> = vec![];
+        exhaustive(&sub[..4], if a.thorough { 6 } else { 5 }, &mut |s| all.push(s.to_vec()));
+        for s in &all { for cap in 0..3 { if want!() { t2_cap(&mut out, *c, cap, s); } } }
     }
     // ---- random texts: decode, push API, random chunkings through the converter
     let n_txt = if a.thorough { 60_000 } else { 5_000 } * a.scale;
